@@ -22,6 +22,7 @@ package types
 //@ directive pure-observer core/types.TxData).gasPrice
 //@ directive pure-observer core/types.TxData).nonce
 //@ directive pure-observer core/types.TxData).gas
+//@ directive pure-observer core/types.TxData).txType
 
 //@ pure func txFeeCap(tx *Transaction) int { return bigval(observe(gasFeeCap, tx.inner)) }
 //@ pure func txTipCap(tx *Transaction) int { return bigval(observe(gasTipCap, tx.inner)) }
@@ -55,6 +56,12 @@ package types
 //@   serves C41
 //@   ensures c == cmp3(txTipCap(tx), bigval(other))
 
+//@ pure func txTypeOf(tx *Transaction) int { return observe(txType, tx.inner) }
+
+//@ func (tx *Transaction) Type() (t uint8)
+//@   serves C03 C41
+//@   ensures t == txTypeOf(tx)
+
 //@ func (tx *Transaction) Nonce() (n uint64)
 //@   serves C41
 //@   ensures n == txNonce(tx)
@@ -67,3 +74,60 @@ package types
 //@   serves C41
 //@   trusted the body dispatches on the dynamic transaction type; assumed to return a fresh big.Int holding the (non-negative) total cost of the immutable transaction
 //@   ensures isfresh(c) && bigval(c) == txCost(tx) && txCost(tx) >= 0
+
+// ---------------------------------------------------------------------------
+// C03: signature value checks and EIP-155 v arithmetic (core/types/transaction_signing.go)
+// ---------------------------------------------------------------------------
+
+//@ directive noeffect go-ethereum/crypto.Ecrecover
+
+//@ pure func SECPN() int { return 115792089237316195423570985008687907852837564279074904382605163141518161494337 }
+//@ pure func validRS(r int, s int, homestead bool) bool { return 1 <= r && r < SECPN() && 1 <= s && s < SECPN() && (homestead ==> s <= 57896044618658097711785492504343953926418782139537452191302581570759080747168) }
+
+// recoverPlain accepts only v in {27, 28} (in absolute value: a negative V cannot come out of
+// the decoder) and in-range r, s (low s from Homestead on).
+//@ func recoverPlain(sighash common.Hash, R, S, Vb *big.Int, homestead bool) (addr common.Address, err error)
+//@   serves C03
+//@   ensures err == nil ==> (abs(bigval(Vb)) == 27 || abs(bigval(Vb)) == 28) && validRS(bigval(R), bigval(S), homestead)
+//@   ensures bigval(R) == old(bigval(R)) && bigval(S) == old(bigval(S)) && bigval(Vb) == old(bigval(Vb))
+
+// deriveChainId: v in {27, 28} is unprotected (chain id 0); otherwise chain id == floor((v - 35) / 2).
+//@ func deriveChainId(v *big.Int) (id *big.Int)
+//@   serves C03
+//@   requires bigval(v) >= 0
+//@   ensures isfresh(id)
+//@   ensures bigval(v) == 27 || bigval(v) == 28 ==> bigval(id) == 0
+//@   ensures bigval(v) >= 35 ==> 2 * bigval(id) + 35 <= bigval(v) && bigval(v) <= 2 * bigval(id) + 36
+//@   ensures bigval(v) == old(bigval(v))
+
+//@ func isProtectedV(V *big.Int) (p bool)
+//@   serves C03
+//@   requires bigval(V) >= 0
+//@   ensures p == !(bigval(V) == 0 || bigval(V) == 1 || bigval(V) == 27 || bigval(V) == 28)
+
+//@ func decodeSignature(sig []byte) (r, s, v *big.Int, err error)
+//@   serves C03
+//@   ensures (err == nil) == (len(sig) == 65)
+//@   ensures err == nil ==> bigval(r) == bevalue(sig[0:32]) && bigval(s) == bevalue(sig[32:64]) && bigval(v) == (sig[64] + 27) % 256
+//@   ensures err == nil ==> bigval(r) < 115792089237316195423570985008687907853269984665640564039457584007913129639936 && bigval(s) < 115792089237316195423570985008687907853269984665640564039457584007913129639936
+
+// EIP-155: V = recovery id + 35 + 2 * chain id (recovery id 0 or 1, as documented).
+//@ func (s EIP155Signer) SignatureValues(tx *Transaction, sig []byte) (R, S, V *big.Int, err error)
+//@   serves C03
+//@   requires len(sig) == 65 ==> sig[64] <= 1
+//@   requires s.chainId != nil && bigval(s.chainId) >= 0
+//@   ensures err == nil ==> len(sig) == 65 && txTypeOf(tx) == 0
+//@   ensures txTypeOf(tx) != 0 ==> err == ErrTxTypeNotSupported
+//@   ensures err == nil && bigval(s.chainId) != 0 ==> bigval(V) == sig[64] + 35 + 2 * bigval(s.chainId)
+//@   ensures err == nil && bigval(s.chainId) == 0 ==> bigval(V) == sig[64] + 27
+//@   ensures err == nil ==> bigval(R) == bevalue(sig[0:32]) && bigval(S) == bevalue(sig[32:64])
+//@   ensures bigval(s.chainId) == old(bigval(s.chainId))
+//@   nowrap
+
+// With V = b + 35 + 2c (b in {0,1}) the chain id derived from V is c and the value handed to
+// recoverPlain by Sender, V - 2c - 8, is b + 27.
+//@ lemma eip155VRoundTrip(b int, c int, v int, id int)
+//@   serves C03
+//@   requires 0 <= b && b <= 1 && c >= 0 && v == b + 35 + 2 * c
+//@   requires 2 * id + 35 <= v && v <= 2 * id + 36
+//@   ensures id == c && v - 2 * c - 8 == b + 27
